@@ -4,6 +4,8 @@ CONSTANTS
   Chans = {"c1"}
   PersistAfterDelete = TRUE
   MaxKills = 2
+  BackupFirst = FALSE
   MaxOps = 5
 INVARIANTS RestartSetWasVisited LoadedWasVisited IdleFileEqualsLive AckedPausePersisted
+PROPERTY FileNeverVanishes
 CHECK_DEADLOCK FALSE
